@@ -568,29 +568,29 @@ func (te *TemplateEngine) renderLoopsNested(content string, lists map[string][]i
 	// 渲染循环
 	if listData, exists := lists[listVar]; exists {
 		for i, item := range listData {
+			loopContent := blockContent
+
+			// 如果item是map，先展开嵌套循环：嵌套循环体内的 {{this}}、{{@index}} 等属于嵌套循环自身，
+			// 必须在外层替换循环上下文变量之前处理；item中不存在的列表按空列表处理（与顶层一致）
+			itemMap, isMap := item.(map[string]interface{})
+			if isMap {
+				nestedLists := make(map[string][]interface{})
+				for key, value := range itemMap {
+					if listValue, ok := value.([]interface{}); ok {
+						nestedLists[key] = listValue
+					}
+				}
+				loopContent = te.renderLoopsNested(loopContent, nestedLists, depth+1)
+			}
+
 			// 创建循环上下文变量
-			loopContent := strings.ReplaceAll(blockContent, "{{this}}", te.interfaceToString(item))
+			loopContent = strings.ReplaceAll(loopContent, "{{this}}", te.interfaceToString(item))
 			loopContent = strings.ReplaceAll(loopContent, "{{@index}}", strconv.Itoa(i))
 			loopContent = strings.ReplaceAll(loopContent, "{{@first}}", strconv.FormatBool(i == 0))
 			loopContent = strings.ReplaceAll(loopContent, "{{@last}}", strconv.FormatBool(i == len(listData)-1))
 
 			// 如果item是map，处理属性访问
-			if itemMap, ok := item.(map[string]interface{}); ok {
-				// 首先处理嵌套的循环（在替换变量之前）
-				// 为嵌套循环创建新的lists map，包含当前项的列表数据
-				nestedLists := make(map[string][]interface{})
-				for key, value := range itemMap {
-					// 检查值是否是列表类型
-					if listValue, ok := value.([]interface{}); ok {
-						nestedLists[key] = listValue
-					}
-				}
-
-				// 如果有嵌套列表，递归处理嵌套循环
-				if len(nestedLists) > 0 {
-					loopContent = te.renderLoopsNested(loopContent, nestedLists, depth+1)
-				}
-
+			if isMap {
 				// 然后替换普通变量
 				for key, value := range itemMap {
 					placeholder := fmt.Sprintf("{{%s}}", key)
